@@ -10,7 +10,7 @@ and `lysp_ext_instance_resolve_argument` (`tree_schema_common.c`, the `LY_VALUE_
 `Yin/Xml.lean`.  The keyword trie is `YangStr.matchKw` (`lysp_match_kw`, generated).  Core Lean only.
 -/
 namespace LyModel.Yin
-open LyModel LyModel.Generated
+open LyModel LyModel.Generated LyModel.XmlLex
 
 /-- result of `yin_match_keyword` -/
 inductive MKw where
